@@ -101,9 +101,20 @@ def build(root, inst, k):
     return pk
 
 
+class HarnessTimeout(BaseException):
+    pass
+
+
+def _alarm(sig, frame):
+    raise HarnessTimeout("the command did not return within 20 s")
+
+
 def mini_cli(argv, cwd):
     """In-process cond for commands that spawn nothing (--check): returns (exit, stderr)."""
+    import signal
     import conductor.__main__ as cm
+    signal.signal(signal.SIGALRM, _alarm)
+    signal.alarm(20)
     os.chdir(cwd)
     sys.argv = ["cond"] + argv
     so, se = sys.stdout, sys.stderr
@@ -119,6 +130,8 @@ def mini_cli(argv, cwd):
             sys.stderr.write("UNCAUGHT %s: %s" % (type(e).__name__, e))
         err = sys.stderr.getvalue()
     finally:
+        import signal as _s
+        _s.alarm(0)
         sys.stdout, sys.stderr = so, se
     return code, err
 
